@@ -161,6 +161,7 @@ class Interpreter:
 
     # ---- invariants
     def check_invariants(self, where):
+        self.check_held_outputs(where)
         for i, (df, ref_) in enumerate(zip(self.data, self.pristine)):
             if not df.equals(ref_) or not D.same_index(df.index, ref_.index) or list(df.dtypes) != list(ref_.dtypes) \
                     or list(df.columns) != list(ref_.columns):
@@ -532,6 +533,18 @@ class Interpreter:
         fresh = outcome_of(fresh_run)
         self._same_outcome("evaluate", op, real, fresh, compare_value=True)
         self.stats["outputs"] += 1
+        if real[0] == "ok" and isinstance(real[1], np.ndarray):
+            # the caller keeps the array it got: whatever is called later must not change it
+            self.held = (getattr(self, "held", []) + [(real[1], real[1].copy(), len(self.held_log()))])[-6:]
+
+    def held_log(self):
+        return getattr(self, "_held_counter", [])
+
+    def check_held_outputs(self, where):
+        for arr, snapshot, _ in getattr(self, "held", []):
+            if arr.shape != snapshot.shape or not np.array_equal(arr, snapshot, equal_nan=True):
+                raise Violation("an array returned by an earlier evaluate call changed afterwards (the scorer handed out its own buffer)",
+                                after=where, returned=snapshot.tolist()[:4], now=arr.tolist()[:4])
 
     def _same_outcome(self, what, op, real, fresh, compare_value):
         if real[0] != fresh[0] or (real[0] == "error" and real[1] != fresh[1]):
